@@ -155,7 +155,22 @@ def proc_state(pid):
 class Run:
     def __init__(self, exe, maxp, services, timed):
         """services: [(name token, exec id, kind)]  kind 1 ok, 0 does not parse, 2 cannot be executed"""
+        if not os.path.exists(exe):
+            raise IOError("no daemon binary at %s (build in progress?)" % exe)
         self.tmp = tempfile.mkdtemp(prefix="verif_act_")
+        self.d = None
+        self.ctl = None
+        try:
+            self.setup(exe, maxp, services, timed)
+        except Exception:
+            if self.d is not None:
+                self.d.stop()
+            if self.ctl is not None:
+                self.ctl.close()
+            shutil.rmtree(self.tmp, ignore_errors=True)
+            raise
+
+    def setup(self, exe, maxp, services, timed):
         self.sd = os.path.join(self.tmp, "services")
         os.mkdir(self.sd)
         self.ctl_path = os.path.join(self.tmp, "ctl")
